@@ -69,13 +69,25 @@ def twin_face_integrals(run, funcs):
              by_ref=(0,), overrides={'signed_area_tri': rec('signed_area_tri', A)})
     y = Call(run, funcs, '^' + re.escape(c2) + '$', [engine.make_struct('src/voronoi/integrals.rs', 'AreaCentroidIntegral', area=area, centroid=cen), v0, v1, v2, gen],
              by_ref=(0,), overrides={'signed_area_tri': rec('signed_area_tri', A)})
-    (sx, _), (sy, _) = x.single(), y.single()
-    ax, ay = x.arg_after(sx, 0), y.arg_after(sy, 0)
-    ex = [e[1] for e in sx.events if e[0] == 'signed_area_tri']
-    ey = [e[1] for e in sy.events if e[0] == 'signed_area_tri']
-    same_args = len(ex) == 1 and len(ey) == 1 and all(p is q for p, q in zip(ex[0], ey[0]))
-    run.prove('C13 collect twins: VoronoiFaceIntegral and AreaCentroidIntegral accumulate the same area and moment from the same signed_area_tri call',
-              hyps_of(sx) + hyps_of(sy), z3.Not(z3.And(z3.BoolVal(same_args), veq(fv(ax, 'centroid'), fa(ay, 'centroid')), to_z3(fv(ax, 'area')) == to_z3(fa(ay, 'area')))), timeout=20)
+    for kx, (sx, _) in enumerate(x.outs):
+        for ky, (sy, _) in enumerate(y.outs):
+            ax, ay = x.arg_after(sx, 0), y.arg_after(sy, 0)
+            ex = [e[1] for e in sx.events if e[0] == 'signed_area_tri']
+            ey = [e[1] for e in sy.events if e[0] == 'signed_area_tri']
+            same_args = len(ex) == 1 and len(ey) == 1 and all(p is q for p, q in zip(ex[0], ey[0]))
+            vv, m = run.prove('C13 collect twins [paths %d, %d]: VoronoiFaceIntegral and AreaCentroidIntegral accumulate the same area and moment from the same signed_area_tri call' % (kx, ky),
+                              hyps_of(sx) + hyps_of(sy),
+                              z3.Not(z3.And(z3.BoolVal(same_args), veq(fv(ax, 'centroid'), fa(ay, 'centroid')), to_z3(fv(ax, 'area')) == to_z3(fa(ay, 'area')))), timeout=20,
+                              on_sat='caller')
+            if vv == 'sat':
+                pl = {'kind': 'finalize_twins', 'area': float(engine.model_value(m, A))}
+                bad = check_finalize_twins_native(pl)
+                if bad:
+                    run.violation('C13 ' + bad, engine.save_replay('C13', pl))
+                else:
+                    run.suspect.append('C13 collect twins: counterexample (triangle area %g) does not reproduce natively' % pl['area'])
+    if not x.outs or not y.outs:
+        run.inconclusive.append('C13 collect twins: no normal path')
 
 
 def check_finalize_twins_native(p, profile='debug'):
@@ -83,14 +95,19 @@ def check_finalize_twins_native(p, profile='debug'):
     lines = ['finalize_twins 1 0 0 0.3 1 0 0.3 0 1 0.3 0.2 0.2 0', 'finalize_twins 1 0 0 0.3 0 1 0.3 1 0 0.3 0.2 0.2 0',
              'finalize_twins 2 0 0 0.3 1 0 0.3 0 1 0.3 0 0 0.3 0 1 0.3 1 0 0.3 0.2 0.2 0',
              'finalize_twins 2 0 0 0.3 1 0 0.3 0 1 0.3 0.1 0.1 0.3 0.1 0.6 0.3 0.6 0.1 0.3 0.2 0.2 0',
-             'finalize_twins 2 0 0 0.3 0 1 0.3 1 0 0.3 0.1 0.1 0.3 0.6 0.1 0.3 0.1 0.6 0.3 0.2 0.2 0']
+             'finalize_twins 2 0 0 0.3 0 1 0.3 1 0 0.3 0.1 0.1 0.3 0.6 0.1 0.3 0.1 0.6 0.3 0.2 0.2 0',
+             # the same at tiny and huge length scales (triangle areas 1e-19 / 1e+12): thresholds must be relative
+             'finalize_twins 1 0 0 0.3 1e-9 0 0.3 0 1e-9 0.3 2e-10 2e-10 0', 'finalize_twins 1 0 0 0.3 0 1e-9 0.3 1e-9 0 0.3 2e-10 2e-10 0',
+             'finalize_twins 2 0 0 0.3 1e-9 0 0.3 0 1e-9 0.3 1e-10 1e-10 0.3 6e-10 1e-10 0.3 1e-10 6e-10 0.3 2e-10 2e-10 0',
+             'finalize_twins 1 0 0 0.3 1e6 0 0.3 0 1e6 0.3 2e5 2e5 0']
     for prof in ('debug', 'release'):
       for line in lines:
         o = engine.native([line], prof)[0]
         if o[0] != 'ok':
             return 'native finalize scenario panicked'
         v = [float(t) for t in o[1:9]]
-        if v[0] != v[4] or any(abs(x - y) > 1e-12 for x, y in zip(v[1:4], v[5:8])):
+        sc_ = max(abs(x) for x in v[1:4] + v[5:8] + [0.0]) or 1.0
+        if v[0] != v[4] or any(abs(x - y) > 1e-12 * sc_ for x, y in zip(v[1:4], v[5:8])):
             return 'accumulated signed area %r: stored face (area, centroid) = %r but AreaCentroidIntegral gives %r [%s build]' % (v[0], v[0:4], v[4:8], prof)
     return None
 
